@@ -62,11 +62,15 @@ StoreOK(r, t) == (\A i \in 1..Len(r) : r[i] # t) /\ (r = <<>> \/ LtV(r[Len(r)], 
 ApplyAll(s, r, t) == [o \in Obs(s) |-> IF Fires(s, o, t) /\ StoreOK(r[o], t) THEN Append(r[o], t) ELSE r[o]]
 Fails(s, r, t)    == \E o \in Obs(s) : Fires(s, o, t) /\ ~StoreOK(r[o], t)
 
-Init == /\ sc \in Scenarios
-        /\ dup \in (IF NearDup THEN DupCandidates(sc) ELSE {}) \cup {-1}
-        /\ tt = <<>>
-        /\ pc = "init" /\ k = 0 /\ raised = FALSE
-        /\ rec = [o \in Obs(sc) |-> <<>>]
+NoScenario == [D |-> 0, dt |-> 1, obs |-> <<>>, dflt |-> {}]
+Init == sc = NoScenario /\ dup = -1 /\ tt = <<>> /\ pc = "pick" /\ k = 0 /\ raised = FALSE /\ rec = <<>>
+Pick ==                             \* the environment chooses the inputs (one TLC initial state: initial states are slow)
+   /\ pc = "pick"
+   /\ sc' \in Scenarios
+   /\ dup' \in (IF NearDup THEN DupCandidates(sc') ELSE {}) \cup {-1}
+   /\ tt' = Targets(sc', dup')
+   /\ rec' = [o \in Obs(sc') |-> <<>>]
+   /\ pc' = "init" /\ UNCHANGED <<k, raised>>
 T == tt
 ApplyAtZero ==                      \* _apply_observables(0) / fill_results() in init()
    /\ pc = "init"
@@ -81,7 +85,7 @@ Step ==                             \* evolve to the next target time, then appl
    /\ k' = k + 1 /\ pc' = IF Fails(sc, rec, T[k + 1]) THEN "done" ELSE "run"
    /\ UNCHANGED <<sc, dup, tt>>
 Finish == pc = "run" /\ k = Len(T) /\ pc' = "done" /\ UNCHANGED <<sc, dup, tt, k, rec, raised>>
-Next == ApplyAtZero \/ Step \/ Finish
+Next == Pick \/ ApplyAtZero \/ Step \/ Finish
 Spec == Init /\ [][Next]_vars
 
 -----------------------------------------------------------------------------------------------
